@@ -623,3 +623,48 @@ def run_literals(ck, info):
             ck.disagreement("display_ident_part model differs from the formatter", {"part": p, "model": d, "real": a["ok"]}, None)
         if "ok" in b and "\n" not in p and b["ok"] != "let v = {%s = 1}\n" % w:
             ck.disagreement("write_ident_part model differs from the formatter", {"part": p, "model": w, "real": b["ok"]}, None)
+    # the word lexer model (ASCII classes suffice: non-ASCII parts are printed in backticks) vs the real lexer,
+    # on what the two printers emit, followed by a blank
+    hdr = HEADER + "From PV Require Import Proofs.FmtLitProofs Proofs.FmtInstProofs.\n"
+    wv = coq_eval(hdr, ["(lex_word ascii_alpha_f ascii_alnum_f I_prql (display_ident_part I_prql %s ++ [32]), lex_word ascii_alpha_f ascii_alnum_f I_prql (write_ident_part I_prql %s ++ [32]), display_known I_prql %s, write_known I_prql %s)" % ((coq(codes(p)),) * 4) for p in parts])
+    texts = []
+    for p, v in zip(parts, vi):
+        texts.append("".join(chr(c) for c in v[0]) + " ")
+        texts.append("".join(chr(c) for c in v[1]) + " ")
+    rl = harness("c14lex", [{"src": x} for x in texts])
+
+    def real_word(ans):
+        if "ok" not in ans or len(ans["ok"]) != 2:
+            return None
+        k = ans["ok"][1]
+        if isinstance(k, dict) and "Ident" in k:
+            return ["WIdent", codes(k["Ident"])]
+        if isinstance(k, dict) and "Keyword" in k:
+            return ["WKeyword", codes(k["Keyword"])]
+        if isinstance(k, dict) and k.get("Literal") == "Null":
+            return "WNull"
+        if isinstance(k, dict) and isinstance(k.get("Literal"), dict) and "Boolean" in k["Literal"]:
+            return ["WBool", k["Literal"]["Boolean"]]
+        return None
+
+    def model_word(v):
+        if isinstance(v, tuple) and v[0] == "Some" and v[1][1] == [32]:
+            return unlist(v[1][0])
+        return None
+    for i, (p, v) in enumerate(zip(parts, wv)):
+        for j, which in enumerate(("display_ident_part", "write_ident_part")):
+            ck.count("corr-ident-lexer", which + "|" + p)
+            mw, rw = model_word(v[j]), real_word(rl[2 * i + j])
+            if any(ord(c) > 127 for c in texts[2 * i + j]) and "`" not in texts[2 * i + j]:
+                continue
+            if mw != rw:
+                ck.disagreement("word lexer model differs from the lexer on a printed identifier", {"part": p, "printer": which, "text": texts[2 * i + j], "model": str(v[j])[:200], "real": str(rl[2 * i + j])[:200]}, None)
+                continue
+            back_ok = rw == ["WIdent", codes(p)]
+            known = v[2 + j]
+            ck.stat("corr-ident-lexer", "%s:%s%s" % (which, "ok" if back_ok else "lost", ":known-class" if known else ""))
+            if not back_ok:
+                cls = None
+                if known:
+                    cls = "C14-ident-dollar" if "$" in p else ("F11-ident-keyword" if p != "*" else "F11-ident-keyword")
+                ck.disagreement("a printed identifier does not lex back to itself", {"part": p, "printer": which, "text": texts[2 * i + j], "real": str(rl[2 * i + j])[:200]}, (lambda c, cls=cls: cls))
